@@ -127,11 +127,15 @@ def run(ctx):
         if kind == "fractions-first":
             m1.attrs["fractions"] = m1.attrs["fractions"][:1]
         return [m1, m2]
-    for kind in ("grains", "snapshots", "fractions", "fractions-first"):
+    def bad3(kind):
+        ms = bad(kind)
+        ok = driver.make_mineral(I, "olivine", "olivine_A", "matrix_dislocation", 2, label="b0", nsnap=2, symbolic_n=False)
+        return [ok, ms[0], ms[1]]     # the inconsistent mineral is the THIRD one
+    for kind in ("grains", "snapshots", "fractions", "fractions-first", "3:grains", "3:snapshots", "3:fractions"):
         phs = [enum(I, "pydrex.core.MineralPhase", a) for a in ("olivine", "enstatite")]
         try:
-            I.call(f, (bad(kind), phs, [p, q], st))
+            I.call(f, (bad3(kind[2:]) if kind.startswith("3:") else bad(kind), phs, [p, q], st))
             ctx.ob("C10.reject", kind, False, "inconsistent minerals were accepted", loc)
         except RaiseSig as r:
             ctx.ob("C10.reject", kind, r.exc.typename == "ValueError", f"raised {r.exc.typename}", loc)
-    ctx.floor("C10.reject", 4)
+    ctx.floor("C10.reject", 7)
